@@ -13,7 +13,8 @@
      body      ::= [lit {"," lit}] | int "{" [wlit {";" wlit}] "}"
      wlit      ::= lit ["=" int]          (weight 1 when absent)
      lit       ::= ["not"] name
-     name      ::= [a-z_][A-Za-z0-9_]*   (other than "not")                                               *)
+     name      ::= ident [ "(" balanced ")" ]   ident = [a-z_][A-Za-z0-9_]* other than "not"; the argument list
+                   follows the identifier directly, runs to the matching ")", quoted strings inside are opaque      *)
 Require Import V.Lib.Base V.Lib.Dec.
 Local Open Scope Z_scope.
 
@@ -102,10 +103,46 @@ Definition p_ident : parser (list Z) :=
            | c :: r => if is_name_start c then let '(a, b) := span is_ident_char r in Some (c :: a, b) else None
            | [] => None
            end.
+
+(* the rest of an argument list after its "(": up to and including the matching ")" *)
+Definition consr (c : Z) (o : option (list Z * list Z)) : option (list Z * list Z) :=
+  match o with Some (x, y) => Some (c :: x, y) | None => None end.
+Fixpoint scan (d : nat) (instr esc : bool) (l : list Z) : option (list Z * list Z) :=
+  match l with
+  | [] => None
+  | c :: r =>
+      if instr then
+        (if esc then consr c (scan d true false r)
+         else if c =? 92 then consr c (scan d true true r)
+         else if c =? 34 then consr c (scan d false false r)
+         else consr c (scan d true false r))
+      else if c =? 34 then consr c (scan d true false r)
+      else if c =? 40 then consr c (scan (S d) false false r)
+      else if c =? 41 then match d with O => None | S O => Some ([c], r) | S d' => consr c (scan d' false false r) end
+      else consr c (scan d false false r)
+  end.
+Definition p_args : parser (list Z) :=
+  fun l => match l with
+           | c :: r => if c =? 40 then consr c (scan 1 false false r) else Some ([], l)
+           | [] => Some ([], l)
+           end.
 Definition p_name : parser (list Z) :=
-  n <- p_ident ;; if list_eqb n kw_not then (fun _ => None) else ret n.
+  n <- p_ident ;; if list_eqb n kw_not then (fun _ => None) else (a <- p_args ;; ret (n ++ a)).
 Definition p_lit : parser (glit (list Z)) :=
-  n <- p_ident ;; if list_eqb n kw_not then (m <- p_name ;; ret (true, m)) else ret (false, n).
+  n <- p_ident ;; if list_eqb n kw_not then (m <- p_name ;; ret (true, m)) else (a <- p_args ;; ret (false, n ++ a)).
+
+(* the names the parser reads back: an identifier other than "not", optionally followed by a well-formed argument list *)
+Definition nilb {A} (l : list A) : bool := match l with [] => true | _ => false end.
+Definition args_okb (a : list Z) : bool :=
+  match a with
+  | [] => true
+  | c :: b => (c =? 40) && match scan 1 false false b with Some (x, y) => nilb y | None => false end
+  end.
+Definition good_nameb (n : list Z) : bool :=
+  match n with
+  | c :: r => is_name_start c && (let '(i, a) := span is_ident_char r in negb (list_eqb (c :: i) kw_not) && args_okb a)
+  | [] => false
+  end.
 
 Definition p_digits : parser Z :=
   fun l => let '(d, r) := span is_digit l in match d with [] => None | _ => Some (value d, r) end.
